@@ -1,5 +1,8 @@
 /-! Prototype: schedule-independence of the (fixed) quoted-field loop by lock-step simulation
-    between the refilling buffer machine (L0) and the same loop on a fully loaded buffer (L1). -/
+    between the refilling buffer machine (L0) and the same loop on a fully loaded buffer (L1).
+    The loop is the repaired `nextQuotedField`: look-ahead until two bytes or EOF; a delimiter as the
+    very last byte after the closing quote is consumed (the row goes on); a carriage return is skipped
+    only after a closing quote and is content inside the quotes. -/
 namespace Sim
 abbrev Byte := UInt8
 
@@ -49,24 +52,31 @@ def quoted (delim : Byte) (fuel : Nat) (s : St) (start w qc : Nat) : Option (Res
   | 0 => none
   | fuel + 1 =>
     match ensure2 (s.future.length + 1) s with
-    | (s, some e) => some (⟨s.slice start w, true, some e, s.cursor⟩, s.data)
+    | (s, some e) =>
+      -- `err == io.EOF` (the only error of this model) `&& quoteCount%2 != 0 && cursor < len(data) &&
+      -- data[cursor] == delimiter`: the input ends with a delimiter right after the closing quote
+      if qc % 2 != 0 && decide (s.cursor < s.data.length) && s.data[s.cursor]? == some delim then
+        some (⟨s.slice start w, false, none, s.cursor + 1⟩, s.data)
+      else some (⟨s.slice start w, true, some e, s.cursor⟩, s.data)
     | (s, none) =>
       match s.data[s.cursor]? with
       | none => none
       | some ch =>
         let s := { s with cursor := s.cursor + 1 }
-        let keep : Option (Res × List Byte) :=
+        -- a function (as in `Full.quoted`), so that under strict evaluation its recursive call runs only in
+        -- the branch that takes it
+        let keep : Unit → Option (Res × List Byte) := fun _ =>
           let w' := w + 1
           if w' != s.cursor then
             match s.data[s.cursor]? with
             | none => none     -- would read stale memory: excluded by ensure2
             | some nb => quoted delim fuel { s with data := s.data.set w' nb } start w' 0
           else quoted delim fuel s start w' 0
-        if ch == delim then (if qc % 2 != 0 then some (⟨s.slice start w, false, none, s.cursor⟩, s.data) else keep)
-        else if ch == LF then (if qc % 2 != 0 then some (⟨s.slice start w, true, none, s.cursor⟩, s.data) else keep)
-        else if ch == CR then quoted delim fuel s start w qc
-        else if ch == QUOTE then (if (qc + 1) % 2 == 1 then quoted delim fuel s start w (qc + 1) else keep)
-        else keep
+        if ch == delim then (if qc % 2 != 0 then some (⟨s.slice start w, false, none, s.cursor⟩, s.data) else keep ())
+        else if ch == LF then (if qc % 2 != 0 then some (⟨s.slice start w, true, none, s.cursor⟩, s.data) else keep ())
+        else if ch == CR then (if qc % 2 != 0 then quoted delim fuel s start w qc else keep ())
+        else if ch == QUOTE then (if (qc + 1) % 2 == 1 then quoted delim fuel s start w (qc + 1) else keep ())
+        else keep ()
 
 /-- fully loaded twin of a state -/
 def St.loaded (s : St) : St := { s with data := s.data ++ s.future, future := [], sched := [] }
@@ -140,7 +150,7 @@ theorem get_append (a b : List Byte) (i : Nat) (h : i < a.length) : (a ++ b)[i]?
 
 theorem set_append (a b : List Byte) (i : Nat) (x : Byte) (h : i < a.length) :
     (a ++ b).set i x = a.set i x ++ b := by
-  simp [List.set_append, h]
+  simp [h]
 
 theorem quoted_sim (delim : Byte) (fuel : Nat) : ∀ (s t : St) (start w qc : Nat),
     t.data = s.data ++ s.future → t.future = [] → t.cursor = s.cursor → w ≤ s.cursor →
@@ -166,12 +176,14 @@ theorem quoted_sim (delim : Byte) (fuel : Nat) : ∀ (s t : St) (start w qc : Na
       obtain ⟨f0, f1⟩ := a3 rfl
       simp only at h
       have hlen : t.data.length = s1.data.length := by rw [htd, f0]; simp
+      have htd' : t.data = s1.data := by rw [htd, f0, List.append_nil]
       simp only [htc, hlen, f1, ↓reduceIte]
-      simp only [Option.some.injEq, Prod.mk.injEq] at h
-      refine ⟨t.data, ?_⟩
-      simp only [Option.some.injEq, Prod.mk.injEq, and_true]
-      rw [← h.1]
-      simp only [St.slice, htd, f0, List.append_nil, htc]
+      simp only [St.slice, htd'] at h ⊢
+      by_cases hc : (qc % 2 != 0 && decide (s1.cursor < s1.data.length) && s1.data[s1.cursor]? == some delim) = true
+      · simp only [hc, ↓reduceIte, Option.some.injEq, Prod.mk.injEq] at h ⊢
+        exact ⟨_, h.1, rfl⟩
+      · simp only [hc, Bool.false_eq_true, ↓reduceIte, Option.some.injEq, Prod.mk.injEq] at h ⊢
+        exact ⟨_, h.1, rfl⟩
     · subst he
       have g1 := a4 rfl
       simp only at h
@@ -246,7 +258,10 @@ theorem quoted_sim (delim : Byte) (fuel : Nat) : ∀ (s t : St) (start w qc : Na
             · simp only [c2, Bool.false_eq_true, ↓reduceIte] at h ⊢; exact hkeep r d h
           · simp only [c3, Bool.false_eq_true, ↓reduceIte] at h ⊢
             by_cases c4 : (ch == CR) = true
-            · simp only [c4, ↓reduceIte] at h ⊢; exact hrec _ r d h
+            · simp only [c4, ↓reduceIte] at h ⊢
+              by_cases c2 : (qc % 2 != 0) = true
+              · simp only [c2, ↓reduceIte] at h ⊢; exact hrec _ r d h
+              · simp only [c2, Bool.false_eq_true, ↓reduceIte] at h ⊢; exact hkeep r d h
             · simp only [c4, Bool.false_eq_true, ↓reduceIte] at h ⊢
               by_cases c5 : (ch == QUOTE) = true
               · simp only [c5, ↓reduceIte] at h ⊢
